@@ -15,8 +15,9 @@ TRUSTED_BASE = [
     "real-number reading of float code (descent up to rounding is checked by the oracle with a 1e-10 relative slack)",
 ]
 ASSUMPTIONS = [
-    "kernel theorem proved for the Quadratic datafit (exact curvature); Logistic / Huber / WeightedQuadratic epochs, block and multitask "
-    "epochs, GramCD, prox-Newton line search, iterative reweighting: budget-sweep oracle on the implementation (partial)",
+    "kernel theorem proved for the Quadratic datafit (exact curvature); solver-level lifting proved for the AndersonCD, GramCD and GroupBCD skeletons "
+    "(hypothesis: one epoch does not increase the objective); Logistic / Huber / WeightedQuadratic epochs, block, multitask and Gram "
+    "coordinate steps, prox-Newton line search, iterative reweighting: budget-sweep oracle on the implementation (partial)",
     "non-convex penalties inside their step range (MCP: step * weight < gamma; SCAD: step < gamma - 1)",
 ]
 RULE = ("correspondence: mock-kernel traces of the real _solve (incl. accepted / rejected extrapolations) and real epoch kernels vs regenerated "
